@@ -24,6 +24,20 @@ type tblW struct {
 	IndexComp int    `json:"ic"`
 	BloomN    uint64 `json:"bloom"` // 0 = library default
 	WBuf      int    `json:"wbuf"`  // 0 = library default
+	Cmp       string `json:"cmp,omitempty"` // "" = bytes, "fold" = ASCII case-insensitive
+}
+
+// foldComparator orders keys ignoring ASCII case: a consistent total preorder in which keys that differ as bytes
+// can be equal, as the Comparator contract allows.
+type foldComparator struct{}
+
+func (foldComparator) Compare(a, b []byte) int { return bytes.Compare(bytes.ToLower(a), bytes.ToLower(b)) }
+
+func cmpFor(name string) skiplist.Comparator[[]byte] {
+	if name == "fold" {
+		return foldComparator{}
+	}
+	return skiplist.BytesComparator{}
 }
 
 type tblR struct {
@@ -31,12 +45,13 @@ type tblR struct {
 	RBuf         int    `json:"rbuf"`
 	VerifyOnRead bool   `json:"vor,omitempty"`
 	SkipOnLoad   bool   `json:"sol,omitempty"`
+	Cmp          string `json:"cmp,omitempty"`
 }
 
 func writeTable(dir string, kvs []kv, c tblW) error {
 	opts := []sstables.WriterOption{
 		sstables.WriteBasePath(dir),
-		sstables.WithKeyComparator(skiplist.BytesComparator{}),
+		sstables.WithKeyComparator(cmpFor(c.Cmp)),
 		sstables.DataCompressionType(c.DataComp),
 		sstables.IndexCompressionType(c.IndexComp),
 	}
@@ -44,7 +59,7 @@ func writeTable(dir string, kvs []kv, c tblW) error {
 		opts = append(opts, sstables.BloomExpectedNumberOfElements(c.BloomN))
 	}
 	if c.Writer == "skiplist" {
-		m := skiplist.NewSkipListMap[[]byte, []byte](skiplist.BytesComparator{})
+		m := skiplist.NewSkipListMap[[]byte, []byte](cmpFor(c.Cmp))
 		// insert in reverse to make sure the writer relies on the map's order
 		for i := len(kvs) - 1; i >= 0; i-- {
 			m.Insert(kvs[i].K, kvs[i].V)
@@ -75,7 +90,7 @@ func writeTable(dir string, kvs []kv, c tblW) error {
 }
 
 func openTable(dir string, c tblR) (sstables.SSTableReaderI, error) {
-	opts := []sstables.ReadOption{sstables.ReadBasePath(dir), sstables.ReadWithKeyComparator(skiplist.BytesComparator{})}
+	opts := []sstables.ReadOption{sstables.ReadBasePath(dir), sstables.ReadWithKeyComparator(cmpFor(c.Cmp))}
 	if c.RBuf > 0 {
 		opts = append(opts, sstables.ReadBufferSizeBytes(c.RBuf))
 	}
@@ -88,7 +103,7 @@ func openTable(dir string, c tblR) (sstables.SSTableReaderI, error) {
 	case "slice":
 		opts = append(opts, sstables.ReadIndexLoader(&sstables.SliceKeyIndexLoader{ReadBufferSize: rb}))
 	case "skiplist":
-		opts = append(opts, sstables.ReadIndexLoader(&sstables.SkipListIndexLoader{KeyComparator: skiplist.BytesComparator{}, ReadBufferSize: rb}))
+		opts = append(opts, sstables.ReadIndexLoader(&sstables.SkipListIndexLoader{KeyComparator: cmpFor(c.Cmp), ReadBufferSize: rb}))
 	case "map4":
 		opts = append(opts, sstables.ReadIndexLoader(&sstables.MapKeyIndexLoader[[4]byte]{ReadBufferSize: rb, Mapper: &sstables.Byte4KeyMapper{}}))
 	case "disk":
